@@ -49,12 +49,15 @@ JudgePack(e) ==
   Tag(PackCap(out), "Inv.PackCap") \o
   Tag(PackNoExecuted(executed, out), "Inv.PackNoExecuted") \o
   Tag(PackFromPool(P, out), "Inv.PackFromPool") \o
+  (* the nonce rules come with Proposal018; below that height a pack is the head of the pending list *)
+  (IF e.pre018 THEN Tag(Len(out) = (IF Len(pending) > Cap THEN Cap ELSE Len(pending)), "Pack.pre018-size")
+   ELSE
   Tag(PackAscending(T, out), "Inv.PackAscending") \o
   Tag(PackNotAhead(T, nonceOf, out), "Inv.PackNotAhead") \o
   (* a transaction put back by a reorg can be packed once more *)
   Tag(Cardinality(ref) <= Cap => (readded \cap ref) \subseteq Set(out), "Inv.ReorgedTxPackable") \o
   Tag(Cardinality(ref) <= Cap => Set(out) = ref, "Pack.set") \o
-  Tag(Cardinality(ref) > Cap => Len(out) = Cap, "Pack.fills-cap") \o
+  Tag(Cardinality(ref) > Cap => Len(out) = Cap, "Pack.fills-cap")) \o
   Tag(e.state.pending = pending /\ ObsExecuted(e.state) = executed, "Pack.state-changed")
 
 JudgeMark(e) ==
